@@ -21,8 +21,9 @@ class Run:
 
     def __init__(self, c, variant='api', pool='plain', seed=0, ignore_contract=False, metas=True,
                  monitor=False, sc=None, names=None, rename=None, reimport=False, copy_into=False,
-                 manual_execute=False):
+                 manual_execute=False, shadow=False):
         self.c = c
+        self.shadow = None
         if sc is None:
             sc, names = realize.build(c, variant, pool, seed)
         if rename is not None:
@@ -68,6 +69,22 @@ class Run:
             self.interp.attach(self.listener2)
         self.opt = {'ignore': bool(ignore_contract), 'metas': bool(metas)}
         self.returned = []      # (MacroStep object, what it said when it was returned)
+        if shadow:
+            # a second, independent interpreter of the SAME Statechart object, kept busy between the calls of this
+            # one (other clock values, every guard true, every event): instances must not influence each other
+            self.shadow = Run(c, sc=self.sc, names=self.names, ignore_contract=True, metas=False)
+
+    def disturb(self):
+        sh = self.shadow
+        try:
+            sh.interp.clock.time += 3
+            sh.probes.arm([True] * len(self.c['trans']), 0)
+            for e in self.c['events'][:3]:
+                sh.interp.queue(Event(realize.ev_name(e)))
+            for _ in range(2):
+                sh.interp.execute_once()
+        except Exception:
+            pass
 
     # ---- projection
     def state(self):
@@ -150,6 +167,8 @@ class Run:
             o['post'] = self.state()
             o['rtime'] = o['post']['time']
             return o
+        if self.shadow is not None:
+            self.disturb()
         self.probes.arm(gv, o['cfail'])
         if self.mon is not None:
             self.mon.arm(o['mfail'])
